@@ -142,3 +142,120 @@ func existsPath(fn *ssa.Function, atoms atomEnv, target func(ssa.Instruction) bo
 	dfs(fn.Blocks[0], nil, map[*ssa.Phi]int8{}, 0)
 	return found
 }
+
+
+// existsPathFrom: like existsPath but starting just after instruction `from` (phi environment empty).
+func existsPathFrom(fn *ssa.Function, atoms atomEnv, from ssa.Instruction, target func(ssa.Instruction) bool, barrier func(ssa.Instruction) bool) ssa.Instruction {
+	b := from.Block()
+	idx := instrIndex(from) + 1
+	for i := idx; i < len(b.Instrs); i++ {
+		if target(b.Instrs[i]) {
+			return b.Instrs[i]
+		}
+		if barrier != nil && barrier(b.Instrs[i]) {
+			return nil
+		}
+	}
+	var found ssa.Instruction
+	seen := map[feasState]bool{}
+	var dfs func(blk, prev *ssa.BasicBlock, phis map[*ssa.Phi]int8, depth int)
+	dfs = func(blk, prev *ssa.BasicBlock, phis map[*ssa.Phi]int8, depth int) {
+		if found != nil || depth > 400 {
+			return
+		}
+		np := map[*ssa.Phi]int8{}
+		for k, v := range phis {
+			np[k] = v
+		}
+		pidx := -1
+		for i, p := range blk.Preds {
+			if p == prev {
+				pidx = i
+			}
+		}
+		for _, ins := range blk.Instrs {
+			ph, ok := ins.(*ssa.Phi)
+			if !ok {
+				break
+			}
+			if isBool(ph.Type()) && pidx >= 0 {
+				if val, k := evalBool(ph.Edges[pidx], atoms, phis); k {
+					if val {
+						np[ph] = 1
+					} else {
+						np[ph] = -1
+					}
+				}
+			}
+		}
+		st := feasState{blk, prev, envKey(np)}
+		if seen[st] {
+			return
+		}
+		seen[st] = true
+		for _, ins := range blk.Instrs {
+			if target(ins) {
+				found = ins
+				return
+			}
+			if barrier != nil && barrier(ins) {
+				return
+			}
+		}
+		if iff, ok := blk.Instrs[len(blk.Instrs)-1].(*ssa.If); ok {
+			if val, known := evalBool(iff.Cond, atoms, np); known {
+				if val {
+					dfs(blk.Succs[0], blk, np, depth+1)
+				} else {
+					dfs(blk.Succs[1], blk, np, depth+1)
+				}
+				return
+			}
+		}
+		for _, s := range blk.Succs {
+			dfs(s, blk, np, depth+1)
+		}
+	}
+	// leave the starting block
+	if len(b.Instrs) > 0 {
+		if iff, ok := b.Instrs[len(b.Instrs)-1].(*ssa.If); ok {
+			if val, known := evalBool(iff.Cond, atoms, map[*ssa.Phi]int8{}); known {
+				if val {
+					dfs(b.Succs[0], b, map[*ssa.Phi]int8{}, 0)
+				} else {
+					dfs(b.Succs[1], b, map[*ssa.Phi]int8{}, 0)
+				}
+				return found
+			}
+		}
+	}
+	for _, s := range b.Succs {
+		dfs(s, b, map[*ssa.Phi]int8{}, 0)
+	}
+	return found
+}
+
+
+// existsPathInLoop: existsPath where the atoms are comparisons evaluated inside a loop body: the search
+// covers one iteration — it starts at the head of the innermost loop around the atoms and stops when the
+// head is reached again — so that paths which bypass the atoms' blocks inside the iteration are found.
+func existsPathInLoop(fn *ssa.Function, atoms atomEnv, target func(ssa.Instruction) bool) ssa.Instruction {
+	for a := range atoms {
+		ins, ok := a.(ssa.Instruction)
+		if !ok {
+			continue
+		}
+		head := loopHeadOf(ins.Block())
+		if head == nil {
+			return existsPath(fn, atoms, target, nil)
+		}
+		from := head.Instrs[len(head.Instrs)-1]
+		hit := existsPathFrom(fn, atoms, from, target, func(i ssa.Instruction) bool {
+			return i.Block() == head && i == head.Instrs[0]
+		})
+		if hit != nil {
+			return hit
+		}
+	}
+	return nil
+}
